@@ -441,6 +441,145 @@ fn fault_scenario(_info: &RunInfo, ch: &mut Chooser, ctx: &mut Ctx) {
     dispatch(cfg, FaultJob { ch, ctx, cfg });
 }
 
+
+// SINGLE-PATH FAULT ARM
+// ------------------------------------------------------------------------------------------------
+// A single opening (`prove` -> `verify`) is a message too: leaf, then the authentication nodes.
+
+struct PathJob<'a> {
+    ch: &'a mut Chooser,
+    ctx: &'a mut Ctx,
+    cfg: Cfg,
+}
+
+impl<'a> Job for PathJob<'a> {
+    type Out = ();
+    fn run<B: SimField, H: ElementHasher<BaseField = B> + Send + Sync + 'static>(self) {
+        faulted_path::<H>(self.ch, self.ctx, self.cfg)
+    }
+}
+
+fn faulted_path<H: Hasher>(ch: &mut Chooser, ctx: &mut Ctx, cfg: Cfg) {
+    let depth = 1 + ch.weighted("depth", &[4, 4, 4, 3, 2, 2, 1, 1, 1, 1]) as u32;
+    let n = 1usize << depth;
+    let salt = ch.u64("salt");
+    let leaves = leaves_for::<H>(n, salt);
+    let tree = MerkleTree::<H>::new(leaves.clone()).expect("harness: tree");
+    let root = *tree.root();
+    let pos = match ch.weighted("pos.style", &[4, 1, 1]) {
+        0 => ch.index("pos", n),
+        1 => 0,
+        _ => n - 1,
+    };
+    let honest = match guard(|| tree.prove(pos)) {
+        Ok(Ok(p)) => p,
+        Ok(Err(e)) => {
+            ctx.violation("C10/single/honest-opening prove", format!("prove({pos}) fails on a tree of {n} leaves: {e}"));
+            return;
+        },
+        Err(p) => {
+            ctx.violation(format!("C10/single/prove-panic {}", p.signature()), format!("prove({pos}) on {n} leaves: {}:{} {}", p.file, p.line, p.msg));
+            return;
+        },
+    };
+    let mut path = honest.clone();
+    let mut index = pos;
+    let kind = ch.weighted("fault", &[4, 4, 2, 2, 2, 3, 2, 2, 3, 3, 2]);
+    let what: String = match kind {
+        0 => {
+            match flip_one_bit::<H>(&path[0], ch) {
+                Some(d) => path[0] = d,
+                None => path[0] = other_digest::<H>(salt ^ 1),
+            }
+            ctx.fault("single_path_leaf_changed");
+            "leaf changed".into()
+        },
+        1 => {
+            let k = 1 + ch.index("node", path.len() - 1);
+            match flip_one_bit::<H>(&path[k], ch) {
+                Some(d) => path[k] = d,
+                None => path[k] = other_digest::<H>(salt ^ 2),
+            }
+            ctx.fault("single_path_node_changed");
+            "node changed".into()
+        },
+        2 => {
+            path.pop();
+            ctx.fault("single_path_last_node_dropped");
+            "last node dropped".into()
+        },
+        3 => {
+            path.remove(1.min(path.len() - 1));
+            ctx.fault("single_path_first_node_dropped");
+            "first node dropped".into()
+        },
+        4 => {
+            let l = ch.index("trunc", 2);
+            path.truncate(l);
+            ctx.fault("single_path_truncated_to_0_or_1");
+            format!("path truncated to {l} digests")
+        },
+        5 => {
+            let extra = [1usize, 2, 63 - depth as usize, 64 - depth as usize, 65 - depth as usize, 70][ch.index("extra", 6)];
+            for i in 0..extra {
+                path.push(other_digest::<H>(salt ^ (100 + i as u64)));
+            }
+            ctx.fault("single_path_surplus_nodes");
+            format!("{extra} surplus nodes appended")
+        },
+        6 => {
+            if path.len() >= 3 {
+                let k = 1 + ch.index("swap", path.len() - 2);
+                path.swap(k, k + 1);
+            } else {
+                path.swap(0, 1);
+            }
+            ctx.fault("single_path_nodes_swapped");
+            "two neighbouring digests swapped".into()
+        },
+        7 => {
+            index = (pos + 1 + ch.index("other", n - 1)) % n;
+            ctx.fault("single_path_other_in_range_position");
+            "another in-range position".into()
+        },
+        8 => {
+            // positions that agree with the honest one in their low `depth` bits
+            index = [pos + n, pos + 2 * n, pos + (n << 7), pos | (1usize << 40), pos | (1usize << 63)][ch.index("alias", 5)];
+            ctx.fault("single_path_out_of_range_position_same_low_bits");
+            "out-of-range position with the same low bits".into()
+        },
+        9 => {
+            index = [n, n + 1, usize::MAX, usize::MAX - 1, usize::MAX / 2 + 1, usize::MAX - n + 1][ch.index("oor", 6)];
+            ctx.fault("single_path_out_of_range_position");
+            "out-of-range position".into()
+        },
+        _ => {
+            path = vec![path[0]; path.len()];
+            ctx.fault("single_path_all_digests_equal");
+            "every digest replaced by the leaf".into()
+        },
+    };
+    let res = guard(|| MerkleTree::<H>::verify(root, index, &path));
+    ctx.event_with("verify", simcore::rng::fnv1a(format!("{what}{n}/{pos}/{index}/{salt}{:?}", res.as_ref().map(|r| r.is_ok())).as_bytes()), || {
+        format!("{n} leaves, {:?}, position {pos} -> {index}: {what} -> verify {:?}", cfg.1, res.as_ref().map(|r| r.as_ref().map_err(|e| e.to_string())))
+    });
+    let fkind = what.split(|c: char| c.is_ascii_digit()).next().unwrap_or("").trim().to_string();
+    match res {
+        Err(p) => ctx.violation(format!("C10/single/verify-panic {}", p.signature()), format!("{what}; {n} leaves, {:?}, position {index}, {} digests: {}:{} {}", cfg.1, path.len(), p.file, p.line, p.msg)),
+        Ok(Ok(())) => ctx.violation(
+            format!("C10/single/faulted-opening-accepted {fkind}"),
+            format!("verify accepted a single opening after: {what}; {n} leaves, {:?}, honest position {pos}, position given {index}, {} digests", cfg.1, path.len()),
+        ),
+        Ok(Err(_)) => {},
+    }
+}
+
+fn path_scenario(_info: &RunInfo, ch: &mut Chooser, ctx: &mut Ctx) {
+    let hashers: [usize; 6] = [0, 10, 3, 6, 9, 11];
+    let cfg = CONFIGS[hashers[ch.weighted("hasher", &[4, 1, 2, 2, 1, 1])]];
+    dispatch(cfg, PathJob { ch, ctx, cfg });
+}
+
 // SCHEDULED-CONSTRUCTION ARM (concurrent build under SimRayon, inside an isolated worker)
 // ------------------------------------------------------------------------------------------------
 // Trees above 1024 leaves are built by crypto::merkle::concurrent when the `concurrent` feature is
@@ -562,6 +701,14 @@ pub fn spec() -> CheckSpec {
     let arms: Vec<Box<dyn Arm>> = vec![
         Box::new(SubsetArm),
         Box::new(FnArm { name: "faulted-openings", quick: 300_000, thorough: 6_000_000, f: fault_scenario }),
+        Box::new(FnArm { name: "faulted-single-paths", quick: 100_000, thorough: 2_000_000, f: path_scenario }),
+        Box::new(IsoArm {
+            check_id: "C10",
+            inner: Box::new(FnArm { name: "faulted-single-paths", quick: 30_000, thorough: 500_000, f: path_scenario }),
+            timeout_s: 60,
+            exe_env: Some("WFSIM_OVF"),
+            alias: Some("faulted-single-paths-overflow-checked"),
+        }),
         Box::new(IsoArm {
             check_id: "C10",
             inner: Box::new(FnArm { name: "faulted-openings", quick: 60_000, thorough: 1_000_000, f: fault_scenario }),
